@@ -37,6 +37,22 @@ CLAIMS = {
              "CPython), z3. Unverified: str/bytes/bytearray/unicode indexing helpers, SetItemInt/DelItemInt, slicing (SliceObject), "
              "helper selection in IndexNode.",
         ref="4 C15"),
+    "C14": dict(
+        text="Proof, for a catalogue of `for i in range(...)` / `reversed(range(...))` loops over C integers (start/stop/constant step "
+             "of both signs, |step| in 1..3, else clause, break), that the C function the working-tree compiler emits runs exactly "
+             "Python's iterations in Python's order: a structural loop invariant (read off the emitted `for` statement's own counter, "
+             "bound and increment) states that at the k-th entry of the body the loop variable is element k of Python's sequence, "
+             "termination by a decreasing measure, and the postcondition gives the iteration count len(range(a, b, s)), the final "
+             "value of the loop variable (untouched for an empty sequence), the else clause exactly when no break happened and the "
+             "position of the first hit for break - for ALL bounds a, b (unbounded iteration counts; no unrolling). Kernel: "
+             "programs are the stated catalogue; inputs are universally quantified.",
+        note="Trusted: dv C front end (loop-invariant rule), z3, the closed form of len(range()) (validated against CPython every run), "
+             "the Div/Mod helper contracts proved under C03. Value obligations assume absence of C undefined behaviour; the overflow "
+             "obligations of the emitted counter arithmetic are part of this check and hold except in the recorded finding "
+             "C14-range-counter-overflow (bounds near the type limits; witness replayed natively every run). NOT covered: range with a "
+             "run-time step (Python iteration protocol), object loop targets, enumerate, dict/set/str/bytes/C-array iteration, "
+             "dict_iter/set_iter helpers and the mutation-during-iteration RuntimeError.",
+        ref="4 C14"),
     "C19": dict(
         text="Proof (a) on the abstract CPython object model that the comparison helpers of Optimize.c::PyObjectCompare taken from the "
              "generated module answer like CPython: __Pyx_PyObject_CompareIntInt<Op> for all six operators and both result kinds "
